@@ -15,7 +15,7 @@ def gen(run, name, nodes, clients, msgs, ids, depth, simulate=None, qos=(0, 1, 2
                                simulate=simulate, depth=(depth * 6) if simulate else None)
 
 
-def scenario(h, nodes):
+def scenario(h, nodes, dupall=False):
     ops = []
     # one subscriber session per node, subscribed to the topics that node hosts
     for n in nodes:
@@ -26,9 +26,14 @@ def scenario(h, nodes):
     for c in sorted({o["c"] for o in h if o.get("c")}):
         ops.append({"op": "connect", "c": PUBCONN[c], "n": PUBNODE[c], "client": "pub-" + c, "ka": 600, "auto": "none"})
     down = set()
+    used = set()
     for o in h:
         if o["op"] == "pub":
-            ops.append({"op": "pub", "c": PUBCONN[o["c"]], "t": ["t", o["m"]], "p": o["m"], "q": o["q"], "id": o["id"] if o["q"] > 0 else 0})
+            # a QoS 1 PUBLISH that re-uses an identifier of this connection carries DUP = 1 in every other script (a client that
+            # believes it is retransmitting): the flag must not change whether the message is stored before it is acknowledged
+            dup = o["q"] == 1 and (o["c"], o["id"]) in used and (dupall or len(h) % 2 == 0)
+            used.add((o["c"], o["id"]))
+            ops.append({"op": "pub", "c": PUBCONN[o["c"]], "t": ["t", o["m"]], "p": o["m"], "q": o["q"], "id": o["id"] if o["q"] > 0 else 0, "dup": dup})
         elif o["op"] == "pubrel":
             ops.append({"op": "send", "c": PUBCONN[o["c"]], "kind": "PUBREL", "id": o["id"]})
         elif o["op"] == "sweep":
